@@ -257,7 +257,8 @@ def run(ctx):
                     exp = {"mbuf": [k], "dbuf": [k], "arena": [k - 1, k]}.get(role)
                     site = {"mbuf": "c21:mj_makeModel-leak-on-2nd-alloc-longjmp", "dbuf": "c21:mj_makeRawData-leak-on-2nd-alloc-longjmp",
                             "arena": "c21:mj_makeRawData-leak-on-3rd-alloc-longjmp"}.get(role)
-                    if site is None or r["live"] != ",".join(map(str, exp)) or " returning " in l:
+                    # (mj_compile installs its own longjmp-ing log handler: the regime of the global handler is irrelevant here)
+                    if site is None or r["live"] != ",".join(map(str, exp)):
                         site = "c21:mj_compile-leak-of-blocks-%s-after-failed-%s-alloc" % (r["live"].replace(",", "+"), role or "%s-byte" % size)
                     seen_keys.setdefault(site, []).append(dict(rep, what="mj_compile: the mju_malloc call #%s (%s bytes, %s) fails; the compiler reports "
                                                                "the error but the blocks with call ids {%s} are never freed" % (k, size, role or "?", r["live"])))
